@@ -287,6 +287,13 @@ static int __check_key_bits(jwt_t *jwt)
 {
 	int key_bits = jwt->key->bits;
 
+	/* An octet key has no provider key or PEM behind it, only raw bytes */
+	if (jwt->key->kty == JWK_KEY_TYPE_OCT) {
+		jwt_write_error(jwt, "Key type does not match alg %s",
+				jwt_alg_str(jwt->alg));
+		return 1;
+	}
+
 	switch (jwt->alg) {
 	case JWT_ALG_RS256:
 	case JWT_ALG_RS384:
@@ -407,6 +414,10 @@ int jwt_sign(jwt_t *jwt, char **out, unsigned int *len, const char *str,
 	case JWT_ALG_HS256:
 	case JWT_ALG_HS384:
 	case JWT_ALG_HS512:
+		if (jwt->key->kty != JWK_KEY_TYPE_OCT) {
+			jwt_write_error(jwt, "HMAC algs require an octet key");
+			return 1;
+		}
 		if (__check_hmac(jwt))
 			return 1;
 		if (sign_sha_hmac(jwt, out, len, str, str_len)) {
@@ -488,7 +499,10 @@ jwt_t *jwt_verify_sig(jwt_t *jwt, const char *head, unsigned int head_len,
 	case JWT_ALG_HS256:
 	case JWT_ALG_HS384:
 	case JWT_ALG_HS512:
-		if (_verify_sha_hmac(jwt, head, head_len, sig_b64))
+		/* Only an octet key has HMAC key material (oct.key/oct.len
+		 * share storage with the provider key of other key types). */
+		if (jwt->key->kty != JWK_KEY_TYPE_OCT ||
+		    _verify_sha_hmac(jwt, head, head_len, sig_b64))
 			jwt_write_error(jwt, "Token failed verification");
 		break;
 
